@@ -84,11 +84,13 @@ package types
 //@   props C17
 //@   requires ps != nil
 //@   pure
+//@   noalloc
 //@   ensures result == (ps.count == ps.total)
 
 //@ func (*PartSet).AddPart
 //@   props C17 C08
-//@   requires wfPartSet(ps) && part != nil
+//@   requires ps != nil && part != nil
+//@   invariant-assumed wfPartSet(ps)
 //@   assigns  ps.parts[*], ps.partsBitArray.Elems[*], ps.partsBitArray.mtx.*, ps.count, ps.mtx.*, part.hash
 //@   ensures  result0 ==> 0 <= part.Index && part.Index < ps.total && old(ps.parts[part.Index]) == nil && ps.parts[part.Index] == part && ps.count == old(ps.count) + 1
 //@   ensures  result0 && verify ==> proofOK(part.Proof.Aunts, elems(part.Proof.Aunts), part.Index, ps.total, part.hash, ps.hash)
